@@ -141,7 +141,8 @@ def execute(hb, sb, items, workdir):
         os.makedirs(reports)
         cdir = os.path.join(work, "contracts")
         rpath = os.path.join(work, "solstat_report.md")
-        stale = b"# stale report of an earlier run\n- Old.sol:1\n"
+        # (longer than any report of this world: a run that does not replace the file leaves its tail behind)
+        stale = b"# stale report of an earlier run\n" + b"- Old.sol:1\n" * 40000
         pathof = {"P": "../P", "E": "../E", "Q": "../Q", "contracts": "./contracts", "S": "../Vault.sol"}
         for i, b in enumerate(items):
             inp = b["inp"]
